@@ -76,6 +76,8 @@ def _cfg(c):
     def f(config):
         config.configEOM.errTol = c["errTol"]
         config.configEOM.pressRelErrTol = c["pRel"]
+        if c.get("maxIterations") is not None:
+            config.configEOM.maxIterations = c["maxIterations"]
 
     return f
 
@@ -196,8 +198,8 @@ def case_offeq(c: dict) -> dict:
     # fixture writing: failures here are harness errors (they propagate)
     if directory.exists():
         shutil.rmtree(directory)
-    write_collisions(directory, c["kappa"], c["storeN"], c["storeBasis"])
     try:
+        write_collisions(directory, c["kappa"], c["storeN"], c["storeBasis"])
         return _case(c, directory)
     finally:
         shutil.rmtree(directory, ignore_errors=True)
@@ -450,25 +452,31 @@ def _case(c: dict, directory: pathlib.Path) -> dict:
 
 
 # ============================================================================ the lattice
-def _mk(M, N, errTol, kappa, storeBasis, dN, pRel=0.1, thick=5.0, mfp=50.0):
-    d = dict(Tn=100.0, M=M, N=N, errTol=errTol, pRel=pRel, kappa=kappa, storeBasis=storeBasis, storeN=N + dN, thick=thick, mfp=mfp)
-    d["id"] = f"xsm2+top,Tn=100,M={M},N={N},errTol={errTol:g},pRel={pRel:g},kappa={kappa:g},stored={storeBasis}/N={N + dN},thick={thick:g},mfp={mfp:g}"
+def _mk(M, N, errTol, kappa, storeBasis, dN, pRel=0.1, thick=5.0, mfp=50.0, Tn=100.0, maxIterations=None, compare_equilibrium=True):
+    d = dict(Tn=Tn, M=M, N=N, errTol=errTol, pRel=pRel, kappa=kappa, storeBasis=storeBasis, storeN=N + dN, thick=thick, mfp=mfp,
+             maxIterations=maxIterations, compare_equilibrium=compare_equilibrium)
+    d["id"] = (f"xsm2+top,Tn={Tn:g},M={M},N={N},errTol={errTol:g},pRel={pRel:g},kappa={kappa:g},stored={storeBasis}/N={N + dN},thick={thick:g},mfp={mfp:g}"
+               + (f",maxIterations={maxIterations}" if maxIterations is not None else ""))
     return d
 
 
 def offeq_cases(tier):
-    # quick: every value of every axis (M, N, errTol, kappa, stored basis, stored size = N / > N) at least once, M x N and
-    # basis x (stored size) pairs complete
+    # quick: every value of every axis (M, N, errTol, kappa, stored basis, stored size = N / > N) at least once, all M x N
+    # pairs, both bases with stored size == N and > N, and the three outcomes DEFLAGRATION / RUNAWAY (Tn=90, weak friction) /
+    # ERROR (iteration cap 2: pressure not converged)
     quick = [
         _mk(20, 5, 1e-3, 0.5, "Cardinal", 0),
         _mk(20, 5, 3e-4, 2.0, "Chebyshev", 0),
-        _mk(20, 7, 1e-3, 0.5, "Chebyshev", 2),
+        _mk(30, 7, 1e-3, 0.5, "Chebyshev", 2),
         _mk(30, 5, 1e-3, 0.1, "Cardinal", 4),
-        _mk(30, 7, 3e-4, 0.5, "Cardinal", 0),
+        _mk(20, 7, 1e-3, 2.0, "Chebyshev", 4, Tn=90.0),
+        _mk(20, 5, 1e-3, 0.5, "Cardinal", 0, maxIterations=2),
     ]
     if tier == "quick":
         return quick
     out = list(quick)
+    out.append(_mk(20, 5, 1e-3, 0.5, "Cardinal", 2, Tn=95.0))  # root close to the Jouguet velocity
+    out.append(_mk(30, 5, 3e-4, 2.0, "Cardinal", 0, Tn=90.0))
     seen = {c["id"] for c in out}
     storages = [("Cardinal", 0), ("Chebyshev", 0), ("Cardinal", 2), ("Chebyshev", 4)]
     kappas = [0.5, 2.0, 0.1]
@@ -476,10 +484,10 @@ def offeq_cases(tier):
     for M in (20, 30):
         for N in (5, 7):
             for errTol in (1e-3, 3e-4):
-                for j in range(3):  # three (kappa, storage) combinations per grid/tolerance point, cycling through all 12
+                for j in range(2):  # two (kappa, storage) combinations per grid/tolerance point, cycling through all 12
                     kappa = kappas[(i + j) % 3]
-                    basis, dN = storages[(i + 2 * j) % 4]
-                    cse = _mk(M, N, errTol, kappa, basis, dN)
+                    basis, dN = storages[(i + 2 * j + j) % 4]
+                    cse = _mk(M, N, errTol, kappa, basis, dN, compare_equilibrium=False)
                     if cse["id"] not in seen and len(out) < 24:
                         seen.add(cse["id"])
                         out.append(cse)
